@@ -396,7 +396,11 @@ func (fx *FuncCtx) run() {
 		stopAfter := 0
 		if v := con.Options["stopafter"]; v != "" {
 			fmt.Sscanf(v, "%d", &stopAfter)
-			fx.trusted[fmt.Sprintf("%s: only the first %d top-level statements are verified (option stopafter); the rest of the body is outside the subset and unverified - its waypoint shows that the guarded condition cannot reach it", fx.short, stopAfter)] = true
+			if len(con.Ensures) > 0 {
+				fx.trusted[fmt.Sprintf("%s: only the first %d top-level statement(s) are verified (option stopafter); the rest of the body is outside the subset and unverified, so the %d ensures clauses of its contract are ASSUMED for its callers", fx.short, stopAfter, len(con.Ensures))] = true
+			} else {
+				fx.trusted[fmt.Sprintf("%s: only the first %d top-level statements are verified (option stopafter); the rest of the body is outside the subset and unverified - its waypoint shows that the guarded condition cannot reach it", fx.short, stopAfter)] = true
+			}
 		}
 		for si, stm := range fx.decl.Body.List {
 			if cur == nil {
